@@ -34,6 +34,12 @@ mod engine_a;
 mod props_a;
 mod engine_b;
 mod props_b;
+mod c17;
+mod c18;
+mod c16;
+mod c13;
+mod c15;
+mod c14;
 
 use common::*;
 
@@ -58,6 +64,15 @@ fn main() {
       let code = run_check(&id, tier);
       std::process::exit(code);
     }
+    "ns-worker" => {
+      if args.len() < 3 { usage(); }
+      std::process::exit(c16::ns_worker(&args[2]));
+    }
+    "c14-worker" => {
+      if args.len() < 5 { usage(); }
+      std::process::exit(c14::worker(&args[2], args[3].parse().unwrap(), args[4].parse().unwrap()));
+    }
+    "c15-ns-worker" => { std::process::exit(c15::ns_worker()); }
     "replay" => {
       if args.len() < 3 { usage(); }
       std::process::exit(replay(&args[2]));
@@ -72,6 +87,12 @@ fn run_check(id: &str, tier: Tier) -> i32 {
     match id {
       "C01" | "C02" | "C03" | "C04" | "C05" | "C06" | "C07" | "C08" | "C09" | "C19" => props_a::run(&ctx),
       "C10" | "C11" | "C12" | "C20" => props_b::run(&ctx),
+      "C13" => c13::run(&ctx),
+      "C14" => c14::run(&ctx),
+      "C15" => c15::run(&ctx),
+      "C16" => c16::run(&ctx),
+      "C17" => c17::run(&ctx),
+      "C18" => c18::run(&ctx),
       _ => Outcome::machinery(format!("unknown property {}", id)),
     }
   }));
@@ -91,6 +112,12 @@ fn replay(path: &str) -> i32 {
   match v["engine"].as_str() {
     Some("A") => engine_a::replay_artefact(&v),
     Some("B") => props_b::replay_artefact(&v),
+    Some("C13") => c13::replay_artefact(&v),
+    Some("C14") => c14::replay_artefact(&v),
+    Some("C15") => c15::replay_artefact(&v),
+    Some("C16") => c16::replay_artefact(&v),
+    Some("C17") => c17::replay_artefact(&v),
+    Some("C18") => c18::replay_artefact(&v),
     _ => { eprintln!("unknown engine in artefact"); 2 }
   }
 }
